@@ -50,6 +50,9 @@ type WriteCase struct {
 	// InitUnlistable: `spok --init` in nested/dir, which already holds a spokfile and whose mode is 0300
 	// (its owner may enter it and create files, not list it): the existing spokfile stays as it is
 	InitUnlistable bool `json:"init_unlistable,omitempty"`
+	// ROSpok: the spokfile cannot be written by the user running spok (its directory can): --fmt may
+	// fail; whatever it does about that, it does it to the spokfile and to nothing else
+	ROSpok bool `json:"ro_spok,omitempty"`
 }
 
 var writeTreePool = []string{"main.go", "pkg/a.go", "pkg/sub/b.go", "docs/readme.md", "nested/dir/x.txt", "Makefile", "data/", "nested/.hidden", "spokfile.tmp", "spokfile.bak", ".spokfile.swp", "spokfile~"}
@@ -151,6 +154,7 @@ func genWrite(t *rapid.T) WriteCase {
 	if hasFlag(c.Flags, "--init") && !c.InitElsewhere && rapid.IntRange(0, 3).Draw(t, "init_unlistable") == 0 {
 		c.InitUnlistable, c.Nested = true, true
 	}
+	c.ROSpok = c.Class == "valid" && hasFlag(c.Flags, "--fmt") && !hasFlag(c.Flags, "--init") && rapid.IntRange(0, 2).Draw(t, "ro_spok") == 0
 	c.ProjDir = genProjDir(t)
 	c.ROGitIgnore = c.GitIgnore != nil && rapid.IntRange(0, 3).Draw(t, "ro_gitignore") == 0
 	nt := rapid.IntRange(0, 2).Draw(t, "ntasks")
@@ -242,6 +246,13 @@ func execWrite(s *ev.Shard, b *sandbox.Box, c WriteCase) *rp.Fail {
 			}
 			_ = b.Own()
 		}
+	}
+	if c.ROSpok && c.Class != "absent" {
+		real := filepath.Join(b.Proj, "spokfile")
+		if c.SpokLink {
+			real = filepath.Join(b.Proj, "conf", "spokfile")
+		}
+		_ = os.Chmod(real, 0o444)
 	}
 	before, err := sandbox.Snapshot(b.Home)
 	if err != nil {
